@@ -22,11 +22,10 @@ from __future__ import annotations
 
 import ast
 import json
-import math
 
 from ..cfg import cfg_of
 from ..core import Ctx
-from ..loader import AnalysisError, FunctionInfo, norm, walk_scope
+from ..loader import AnalysisError, norm, walk_scope
 from ..resolve import call_name, last_attr
 from ..util import calls, names_in, one, txt
 from ._g5_helpers import AbsExc, AbsObj, Interp, NullLogger, Raised, Recorder, is_finite_positive
@@ -116,7 +115,12 @@ def run_post(ctx: Ctx, it_box: list, *, principal: str | None = "proxy", authent
                  content_type="application/json")
     limiter = AbsObj("limiter", allow=Recorder("limiter.allow", out.events, allow))
     res_fn = resolver if resolver is not None else (lambda tok: None)
-    self_obj = AbsObj("resource", ci, _resolver=Recorder("resolver", out.events, res_fn), _principals=frozenset({"proxy", "ops"}), _limiter=limiter)
+    attrs = _ctor_attrs(ctx, ci) if cls_spec == RES else {}
+    self_obj = AbsObj("resource", ci)
+    if attrs:
+        setattr(self_obj, attrs["resolver"], Recorder("resolver", out.events, res_fn))
+        setattr(self_obj, attrs["principals"], frozenset({"proxy", "ops"}))
+        setattr(self_obj, attrs["limiter"], limiter)
     auth = AbsObj("auth", principal=principal, authenticated=authenticated, domain="jwt", claims={})
     logger = NullLogger(out.log)
     names = {"_get_auth_and_metadata": lambda: (auth, {}), "falcon": _falcon(), "_logger": logger}
@@ -133,6 +137,36 @@ def run_post(ctx: Ctx, it_box: list, *, principal: str | None = "proxy", authent
     out.status = _status(resp.status)
     out.data = resp.data if resp.data is not None else (resp.text if resp.text is not None else resp.media)
     out.content_type = resp.content_type
+    return out
+
+
+_ctor_cache: dict[str, dict[str, str]] = {}
+
+
+def _ctor_attrs(ctx: Ctx, ci) -> dict[str, str]:  # type: ignore[no-untyped-def]
+    """Which ``self.<attr>`` holds the resolver / the allowlist / the limiter -- read from ``__init__``
+    (first, second constructor parameter; the attribute assigned a ``_RateLimiter(...)``)."""
+    if ci.fq in _ctor_cache:
+        return _ctor_cache[ci.fq]
+    init = ctx.res.find_method(ci, "__init__")
+    if init is None:
+        raise AnalysisError("anchor=_TokenIntrospectionResource.__init__")
+    params = [a.arg for a in init.node.args.args][1:]
+    if len(params) < 2:
+        raise AnalysisError("C36: unexpected constructor signature of the introspection resource")
+    out: dict[str, str] = {}
+    for n in walk_scope(init.node):
+        if isinstance(n, ast.Assign) and len(n.targets) == 1 and isinstance(n.targets[0], ast.Attribute) and isinstance(n.targets[0].value, ast.Name) and n.targets[0].value.id == "self":
+            v = n.value
+            if isinstance(v, ast.Name) and v.id == params[0]:
+                out["resolver"] = n.targets[0].attr
+            elif isinstance(v, ast.Name) and v.id == params[1]:
+                out["principals"] = n.targets[0].attr
+            elif isinstance(v, ast.Call) and last_attr(v) == "_RateLimiter":
+                out["limiter"] = n.targets[0].attr
+    if set(out) != {"resolver", "principals", "limiter"}:
+        raise AnalysisError(f"C36: cannot map constructor arguments to attributes ({out})")
+    _ctor_cache[ci.fq] = out
     return out
 
 
@@ -315,7 +349,7 @@ def run(ctx: Ctx) -> None:
             continue
         if isinstance(par, ast.Call) and n in par.args:
             la = last_attr(par)
-            if any(t.name == "token_digest" for t in ctx.res.resolve(on_post, par)) or la in ("match", "fullmatch", "search") or call_name(par) == "self._resolver":
+            if any(t.name == "token_digest" for t in ctx.res.resolve(on_post, par)) or la in ("match", "fullmatch", "search") or call_name(par) == "self." + _ctor_attrs(ctx, ci)["resolver"]:
                 continue
         bad_uses.append(par)
     ctx.check(not bad_uses, "RF-TAINT", "credential-flows-only-to-digest-regex-resolver", on_post, bad_uses[0] if bad_uses else None, ok="the credential variable is only compared, digested, pattern-tested and handed to the resolver",
